@@ -315,7 +315,82 @@ def run_reentrant(ctx, i, rng):
       ctx.check(len(set(ks)) == len(ks), 'tree:reentrant_layers_share_weights', lambda: dict(case=desc))
 
 
+def run_share_scope(ctx, i, rng):
+  """nn.share_scope (both documented directions): wrapper and wrapped module live in ONE subtree, named after the scope that
+  is kept; a name used by both sides is a clash."""
+  import jax
+  import jax.numpy as jnp
+  import flax.linen as nn
+  from flax import errors
+  from flax.core import unfreeze
+  din, dout, rank = rng.randint(1, 4), rng.randint(1, 4), rng.randint(1, 2)
+  pattern = ['wrap_outer_module', 'wrap_own_child', 'clash'][i % 3]
+
+  class LoRAOuter(nn.Module):
+    base: nn.Module
+    rank: int
+    extra: str = 'A'
+
+    def setup(self):
+      nn.share_scope(self, self.base)
+
+    @nn.compact
+    def __call__(self, x):
+      A = self.param(self.extra, nn.initializers.normal(1.0), (x.shape[-1], self.rank))
+      B = self.param('B', nn.initializers.normal(1.0), (self.rank, self.base.features))
+      return self.base(x) + x @ A @ B
+
+  class LoRAOwn(nn.Module):
+    features: int
+    rank: int
+
+    def setup(self):
+      self.child = nn.Dense(self.features)
+      nn.share_scope(self, self.child)
+
+    @nn.compact
+    def __call__(self, x):
+      A = self.param('A', nn.initializers.normal(1.0), (x.shape[-1], self.rank))
+      B = self.param('B', nn.initializers.normal(1.0), (self.rank, self.features))
+      return self.child(x) + x @ A @ B
+
+  class Model(nn.Module):
+    pattern: str
+
+    @nn.compact
+    def __call__(self, x):
+      x = nn.Dense(din, name='pre')(x)
+      if self.pattern == 'wrap_own_child':
+        return LoRAOwn(dout, rank)(x)
+      dense = nn.Dense(dout)
+      return LoRAOuter(dense, rank, extra='kernel' if self.pattern == 'clash' else 'A')(x)
+
+  desc = dict(pattern=pattern, din=din, dout=dout, rank=rank)
+  with ctx.case('share_scope', i, desc, nontrivial=True):
+    x = jnp.ones((2, din))
+    m = Model(pattern)
+    try:
+      y, v = m.init_with_output(jax.random.key(i), x)
+      raised = None
+    except errors.NameInUseError as e:
+      raised = e
+    ctx.op('nn.share_scope')
+    if pattern == 'clash':
+      ctx.check(raised is not None, 'clash:not_rejected:share_scope', lambda: dict(case=desc))
+      return
+    if not ctx.check(raised is None, 'tree:share_scope_raised', lambda: dict(case=desc, error=repr(raised))):
+      return
+    key = 'Dense_0' if pattern == 'wrap_outer_module' else 'LoRAOwn_0'
+    want = {'pre': {'kernel': (din, din), 'bias': (din,)}, key: {'A': (din, rank), 'B': (rank, dout), 'kernel': (din, dout), 'bias': (dout,)}}
+    got = jax.tree_util.tree_map(lambda a: tuple(np.shape(a)), unfreeze(v)['params'])
+    ctx.check(got == want, 'tree:share_scope_names', lambda: dict(case=desc, want=want, got=got))
+    if got == want:
+      ctx.check(exact(m.apply(v, x), y), 'init_apply_agree:output', lambda: dict(case=desc))
+
+
 def run(ctx):
+  for i in ctx.indices(12 if ctx.tier == 'quick' else 90, 'share_scope'):
+    run_share_scope(ctx, i, ctx.rng('share', i))
   for i in ctx.indices(24 if ctx.tier == 'quick' else 200, 'reentrant'):
     run_reentrant(ctx, i, ctx.rng('reentrant', i))
   rlog = RngLog(ctx)
